@@ -397,7 +397,8 @@ class ProgModel:
         finally:
             self._in_finish = False
         if self.remaining not in (None, 0) and not self.stream_closed:
-            if self.status == 204 or 100 <= self.status < 200:
+            ws = self.e.status  # status of the header block that was sent
+            if ws is not None and (ws == 204 or 100 <= ws < 200):
                 # program-set Content-Length on a status that never has a body: whether the length
                 # guard applies is unspecified (EITHER: torn down, or sent as is)
                 self.e.labels.add("bodyless_cl_guard")
